@@ -49,7 +49,7 @@ PROPERTIES: dict[str, dict] = {
         "assumptions": COMMON_ASSUMPTIONS + ["igraph index convention table per version (spec.py)"],
     },
     "C05": {
-        "rules": ["R-SHAPE", "R-ZERO", "R-FLOW-SERIAL", "R-ELEMTABLE", "R-GRAM3", "R-CODEC"],
+        "rules": ["R-SHAPE", "R-LAYOUT", "R-ZERO", "R-FLOW-SERIAL", "R-ELEMTABLE", "R-GRAM3", "R-CODEC"],
         "technique": "string-shape abstract interpretation of the serializer + regular-language inclusion in the EBNF automaton",
         "explanation": "The serializer's writer functions are evaluated symbolically (all paths) into a regular expression over grammar tokens and "
                        "typed integer holes; inclusion in L_EBNF(tucan) is decided by a product walk. Value holes are positive by R-ZERO; ascending / "
@@ -137,10 +137,11 @@ PROPERTIES: dict[str, dict] = {
         "assumptions": COMMON_ASSUMPTIONS,
     },
     "C15": {
-        "rules": ["R-NOREC", "R-GRAMREC"],
-        "technique": "call-graph cycle detection + grammar rule-graph acyclicity",
+        "rules": ["R-NOREC", "R-GRAMREC", "R-FAILSITES"],
+        "technique": "call-graph cycle detection + grammar rule-graph acyclicity + enumeration of rejecting constructs in the pipeline",
         "explanation": "No input-dependent recursion in tucan code reachable from the public entry points; parse depth is bounded by the number of "
-                       "grammar rules because the rule graphs (EBNF, G4, generated ATN) are acyclic.",
+                       "grammar rules because the rule graphs (EBNF, G4, generated ATN) are acyclic; the pipeline contains no raise / size guard, and its one "
+                       "assertion is discharged by the traversal loop's exit condition.",
         "not_decided": "absence of index/key/assertion errors for every shape; loop termination; memory",
         "assumptions": COMMON_ASSUMPTIONS,
     },
